@@ -168,6 +168,8 @@ impl FeoxStore {
                     return Err(FeoxError::OlderTimestamp);
                 }
                 crate::test_hooks::pause_at(crate::test_hooks::AFTER_UPSERT_READ);
+                #[cfg(feoxdb_verif)]
+                crate::verif::sched_point("after_upsert_read", 0, 0);
 
                 match self.update_record_with_ttl(
                     &existing_record,
@@ -219,6 +221,8 @@ impl FeoxStore {
             self.stats
                 .record_insert(start.elapsed().as_nanos() as u64, false);
 
+            #[cfg(feoxdb_verif)]
+            crate::verif::sched_point("insert_before_enqueue", 0, 0);
             if let (Some(wb), Some(record)) = (&self.write_buffer, buffered_record) {
                 wb.add_write(Operation::Insert, record, 0)?;
             }
@@ -338,6 +342,8 @@ impl FeoxStore {
             self.stats
                 .record_insert(start.elapsed().as_nanos() as u64, false);
 
+            #[cfg(feoxdb_verif)]
+            crate::verif::sched_point("insert_before_enqueue", 0, 0);
             if let (Some(wb), Some(record)) = (&self.write_buffer, buffered_record) {
                 wb.add_write(Operation::Insert, record, 0)?;
             }
@@ -539,6 +545,8 @@ impl FeoxStore {
             scc::hash_map::Entry::Vacant(_) => return Err(FeoxError::KeyNotFound),
         };
 
+        #[cfg(feoxdb_verif)]
+        crate::verif::sched_point("delete_before_enqueue", 0, 0);
         self.remove_cached(key, &record);
 
         // Queue deletion for persistence if write buffer exists and not memory-only
